@@ -66,6 +66,14 @@ def to_sstr(ex, st, v):
         return sstr([ch(c) for c in literal_chars(v.data)])
     if isinstance(v, Adt) and v.ty == "Cow":
         return to_sstr(ex, st, v.fields[0])
+    if isinstance(v, Opaque) and v.tag == "const":
+        # a `static NAME: &str` of the crate, referenced through its allocation
+        import re as _re, mir as _mir
+        m = _re.match(r"^\{(alloc\d+): &&str\}$", str(v.data).strip())
+        if m:
+            text = _mir.static_str(ex.mf, m.group(1))
+            if text is not None:
+                return sstr([ch(ord(c)) for c in text])
     return None
 
 
